@@ -1,4 +1,470 @@
 package driver
 
-func CheckMain(args []string) int  { return 2 }
-func ReplayMain(args []string) int { return 2 }
+// `gosym check <ID> --tier quick|thorough`: explore the plan, validate the translator,
+// replay counterexamples natively, match known findings, write evidence.
+
+import (
+	"crypto/sha1"
+	"encoding/hex"
+	"encoding/json"
+	"fmt"
+	"os"
+	"path/filepath"
+	"regexp"
+	"sort"
+	"strconv"
+	"strings"
+	"time"
+
+	"gosym/interp"
+)
+
+type Plan struct {
+	Property    string
+	Tier        string
+	Seed        int64
+	Jobs        []interp.Job
+	Concrete    []interp.Job // concrete corpus runs through the interpreter (translator validation)
+	Bounds      map[string]interface{}
+	Assumptions []string
+	MustReach   []string // vacuity witnesses: tags that at least one path must reach
+	Level       string
+	Rule        string
+	TimeCap     time.Duration
+	Budget      int64
+	ChunkSize   int
+	SampleEvery int
+	MaxSamples  int
+	Workers     int
+}
+
+type KnownFinding struct {
+	Property string `json:"property"`
+	ID       string `json:"id"`
+	Desc     string `json:"desc"`
+	Kind     string `json:"kind,omitempty"`
+	MsgRe    string `json:"msg_re,omitempty"`
+	StackRe  string `json:"stack_re,omitempty"`
+	EntryRe  string `json:"entry_re,omitempty"`
+	ObsName  string `json:"obs_name,omitempty"`
+	ObsRe    string `json:"obs_re,omitempty"` // regexp over the observation bytes (as a Latin-1 string)
+	ParamRe  string `json:"param_re,omitempty"`
+	Fixed    string `json:"fixed,omitempty"` // "fixed: property=<id> <commit> <what failed>": matches nothing
+}
+
+func loadKnown() ([]KnownFinding, error) {
+	b, err := os.ReadFile(filepath.Join(VerifDir, "known_findings.json"))
+	if os.IsNotExist(err) {
+		return nil, nil
+	}
+	if err != nil {
+		return nil, err
+	}
+	var f struct {
+		Findings []KnownFinding `json:"findings"`
+	}
+	if err := json.Unmarshal(b, &f); err != nil {
+		return nil, fmt.Errorf("known_findings.json: %v", err)
+	}
+	return f.Findings, nil
+}
+
+func latin1(hexs string) string {
+	b, _ := hex.DecodeString(hexs)
+	r := make([]rune, len(b))
+	for i, c := range b {
+		r[i] = rune(c)
+	}
+	return string(r)
+}
+
+func (k *KnownFinding) matches(prop string, v *interp.Violation) bool {
+	if k.Fixed != "" || k.Property != prop {
+		return false
+	}
+	m := func(re, s string) bool {
+		if re == "" {
+			return true
+		}
+		ok, _ := regexp.MatchString(re, s)
+		return ok
+	}
+	if k.Kind != "" && k.Kind != v.Kind {
+		return false
+	}
+	if !m(k.MsgRe, v.Msg) || !m(k.EntryRe, v.Entry) || !m(k.StackRe, strings.Join(v.Stack, "\n")) {
+		return false
+	}
+	if k.ParamRe != "" {
+		ps, _ := json.Marshal(v.Param)
+		if !m(k.ParamRe, string(ps)) {
+			return false
+		}
+	}
+	if k.ObsRe != "" {
+		name := k.ObsName
+		if name == "" {
+			name = "src"
+		}
+		if !m(k.ObsRe, latin1(v.Obs[name])) {
+			return false
+		}
+	}
+	return true
+}
+
+type violRec struct {
+	interp.Violation
+	Confirmed string `json:"native"` // reproduced | not-replayable(monitor) | MISMATCH:<native outcome>
+	Known     string `json:"known,omitempty"`
+	File      string `json:"-"`
+}
+
+func violKey(v *interp.Violation) string {
+	top := ""
+	if len(v.Stack) > 0 {
+		top = v.Stack[0]
+	}
+	return v.Kind + "|" + v.Msg + "|" + top + "|" + v.Entry
+}
+
+func CheckMain(args []string) int {
+	if len(args) < 1 {
+		fmt.Fprintln(os.Stderr, "usage: gosym check <ID> [--tier quick|thorough]")
+		return 2
+	}
+	id := args[0]
+	tier := os.Getenv("VERIF_TIER")
+	for i := 1; i < len(args); i++ {
+		if args[i] == "--tier" && i+1 < len(args) {
+			tier = args[i+1]
+			i++
+		} else if strings.HasPrefix(args[i], "--tier=") {
+			tier = strings.TrimPrefix(args[i], "--tier=")
+		}
+	}
+	if tier != "thorough" {
+		tier = "quick"
+	}
+	seed := int64(1)
+	if s := os.Getenv("VERIF_SEED"); s != "" {
+		if n, err := strconv.ParseInt(s, 10, 64); err == nil {
+			seed = n
+		}
+	}
+	mk, ok := Plans[id]
+	if !ok {
+		fmt.Fprintf(os.Stderr, "no check registered for %s\n", id)
+		return 2
+	}
+	t0 := time.Now()
+	plan, err := mk(tier, seed)
+	if err != nil {
+		fmt.Fprintf(os.Stderr, "CHECK-BROKEN %s: building plan: %v\n", id, err)
+		return 3
+	}
+	plan.Property, plan.Tier, plan.Seed = id, tier, seed
+	defer CleanupReplay()
+
+	// build the native replay binary while the exploration runs
+	buildErr := make(chan error, 1)
+	go func() { _, e := BuildReplay(); buildErr <- e }()
+
+	if plan.TimeCap == 0 {
+		plan.TimeCap = 150 * time.Second
+		if tier == "thorough" {
+			plan.TimeCap = 40 * time.Minute
+		}
+	}
+	if s := os.Getenv("GOSYM_TIMECAP_S"); s != "" {
+		if n, err := strconv.Atoi(s); err == nil {
+			plan.TimeCap = time.Duration(n) * time.Second
+		}
+	}
+	if plan.SampleEvery == 0 {
+		plan.SampleEvery = 7
+	}
+	if plan.MaxSamples == 0 {
+		plan.MaxSamples = 3
+	}
+	opts := poolOpts{Workers: plan.Workers, ChunkSize: plan.ChunkSize, Deadline: t0.Add(plan.TimeCap), Budget: plan.Budget,
+		SampleEvery: plan.SampleEvery, MaxSamples: plan.MaxSamples}
+	// concrete validation jobs ride along in the same pool
+	all := append([]interp.Job{}, plan.Jobs...)
+	nSym := len(all)
+	for _, c := range plan.Concrete {
+		c.IsConcrete = true
+		all = append(all, c)
+	}
+	_ = nSym
+	agg, err := runJobs(all, opts)
+	if err != nil {
+		fmt.Fprintf(os.Stderr, "CHECK-BROKEN %s: %v\n", id, err)
+		return 3
+	}
+	if e := <-buildErr; e != nil {
+		fmt.Fprintf(os.Stderr, "CHECK-BROKEN %s: %v\n", id, e)
+		return 3
+	}
+	broken := false
+	for _, e := range agg.EngineErrs {
+		fmt.Printf("ENGINE-ERROR: %s\n", e)
+		broken = true
+	}
+
+	// ---- translator validation: sampled paths re-run natively must agree byte for byte ----
+	validated, mismatches := 0, 0
+	{
+		var cases []ReplayCase
+		for _, s := range agg.Samples {
+			cases = append(cases, ReplayCase{Entry: s.Entry, Params: s.Params, Model: s.Model})
+		}
+		if len(cases) > 0 {
+			outs, err := RunReplay(cases, 10*time.Second)
+			if err != nil {
+				fmt.Fprintf(os.Stderr, "CHECK-BROKEN %s: native validation: %v\n", id, err)
+				return 3
+			}
+			for i, o := range outs {
+				s := agg.Samples[i]
+				okOutcome := (s.Outcome == "ok" && o.Outcome == "ok") ||
+					(s.Outcome == "panic" && strings.HasPrefix(o.Outcome, "panic")) ||
+					(s.Outcome == "assert-stop" && strings.HasPrefix(o.Outcome, "assert")) ||
+					(s.Outcome == "ok" && strings.HasPrefix(o.Outcome, "assert")) || // engine continues past a violated assertion
+					(s.Outcome == "budget")
+				same := okOutcome
+				if same {
+					for k, v := range s.Obs {
+						if nv, ok := o.Obs[k]; ok && nv != v {
+							same = false
+						}
+					}
+				}
+				if same {
+					validated++
+				} else {
+					mismatches++
+					if mismatches <= 5 {
+						fmt.Printf("ENGINE-MISMATCH: %s %v model=%v engine(%s)=%v native(%s)=%v\n", s.Entry, s.Params, s.Model, s.Outcome, s.Obs, o.Outcome, o.Obs)
+					}
+				}
+			}
+		}
+		if mismatches > 0 {
+			broken = true
+		}
+	}
+
+	// ---- counterexamples: replay natively, match known findings ----
+	known, err := loadKnown()
+	if err != nil {
+		fmt.Fprintf(os.Stderr, "CHECK-BROKEN %s: %v\n", id, err)
+		return 3
+	}
+	// dedupe by site, keep up to 3 instances each, known-matching computed on all
+	byKey := map[string][]*interp.Violation{}
+	var keys []string
+	for i := range agg.Violations {
+		v := &agg.Violations[i]
+		k := violKey(v)
+		if _, ok := byKey[k]; !ok {
+			keys = append(keys, k)
+		}
+		byKey[k] = append(byKey[k], v)
+	}
+	sort.Strings(keys)
+	var recs []*violRec
+	var toReplay []ReplayCase
+	var replayIdx []int
+	for _, k := range keys {
+		vs := byKey[k]
+		// prefer instances that match no known finding, so that a new violation is never hidden
+		sort.SliceStable(vs, func(a, b int) bool {
+			return matchKnown(known, id, vs[a]) == "" && matchKnown(known, id, vs[b]) != ""
+		})
+		kept := 0
+		seenKnown := map[string]bool{}
+		for _, v := range vs {
+			kn := matchKnown(known, id, v)
+			if kn != "" {
+				if seenKnown[kn] {
+					continue
+				}
+				seenKnown[kn] = true
+			} else {
+				if kept >= 3 {
+					continue
+				}
+				kept++
+			}
+			r := &violRec{Violation: *v, Known: kn}
+			recs = append(recs, r)
+			if v.Kind == "monitor" {
+				r.Confirmed = "not-replayable(monitor)"
+				continue
+			}
+			toReplay = append(toReplay, ReplayCase{Entry: v.Entry, Params: v.Param, Model: v.Model})
+			replayIdx = append(replayIdx, len(recs)-1)
+		}
+	}
+	if len(toReplay) > 0 {
+		outs, err := RunReplay(toReplay, 20*time.Second)
+		if err != nil {
+			fmt.Fprintf(os.Stderr, "CHECK-BROKEN %s: native replay: %v\n", id, err)
+			return 3
+		}
+		for i, o := range outs {
+			r := recs[replayIdx[i]]
+			okc := false
+			switch r.Kind {
+			case "panic":
+				okc = strings.HasPrefix(o.Outcome, "panic") || strings.HasPrefix(o.Outcome, "crash")
+			case "assert":
+				okc = o.Outcome == "assert "+r.Msg
+			case "budget":
+				okc = o.Outcome == "timeout"
+			}
+			if okc {
+				r.Confirmed = "reproduced"
+			} else {
+				r.Confirmed = "MISMATCH:" + o.Outcome
+			}
+		}
+	}
+	nViol, nKnown := 0, 0
+	printedKnown := map[string]bool{}
+	os.MkdirAll(filepath.Join(VerifDir, "replays", id), 0755)
+	var lines []string
+	for _, r := range recs {
+		if strings.HasPrefix(r.Confirmed, "MISMATCH") {
+			if r.Kind == "budget" {
+				// an interpreter-budget hit that terminates natively is not a hang: bound not completed
+				agg.Incomplete = appendUniq(agg.Incomplete, "instruction budget hit on a path that terminates natively ("+r.Msg+")")
+				continue
+			}
+			fmt.Printf("ENGINE-MISMATCH: counterexample does not reproduce natively: %s %s model=%v native=%s\n", r.Kind, r.Msg, r.Model, r.Confirmed)
+			broken = true
+			continue
+		}
+		if r.Known != "" {
+			nKnown++
+			if !printedKnown[r.Known] {
+				printedKnown[r.Known] = true
+				lines = append(lines, fmt.Sprintf("KNOWN-FINDING: property=%s %s", id, r.Known))
+			}
+			continue
+		}
+		nViol++
+		b, _ := json.MarshalIndent(map[string]interface{}{"property": id, "entry": r.Entry, "params": r.Param, "model": r.Model,
+			"kind": r.Kind, "msg": r.Msg, "stack": r.Stack, "obs": r.Obs, "native": r.Confirmed}, "", " ")
+		h := sha1.Sum(b)
+		r.File = filepath.Join(VerifDir, "replays", id, hex.EncodeToString(h[:6])+".json")
+		os.WriteFile(r.File, b, 0644)
+		lines = append(lines, fmt.Sprintf("VIOLATION property=%s replay=%s", id, r.File))
+		fmt.Printf("  %s: %s\n    input: %s\n    at: %s\n", r.Kind, r.Msg, describeObs(r.Obs), strings.Join(firstN(r.Stack, 4), " <- "))
+	}
+	for _, l := range lines {
+		fmt.Println(l)
+	}
+
+	// ---- vacuity ----
+	for _, tag := range plan.MustReach {
+		if agg.Stats.Reach[tag] == 0 {
+			fmt.Printf("VACUOUS: no path reached %q\n", tag)
+			broken = true
+		}
+	}
+	complete := len(agg.Incomplete) == 0 && agg.Leftover == 0
+	for _, s := range agg.Incomplete {
+		fmt.Printf("INCOMPLETE: %s\n", s)
+	}
+
+	wall := time.Since(t0).Seconds()
+	if err := writeEvidence(plan, agg, recs, validated, mismatches, nViol, nKnown, complete, wall, broken); err != nil {
+		fmt.Fprintf(os.Stderr, "CHECK-BROKEN %s: writing evidence: %v\n", id, err)
+		return 3
+	}
+	fmt.Printf("%s %s: paths=%d decisions=%d queries(sat=%d unsat=%d unknown=%d prefilter=%d) validated=%d violations=%d known=%d complete=%v solver=%.1fs wall=%.1fs\n",
+		id, tier, agg.Stats.Paths, agg.Stats.Decisions, agg.Stats.Sat, agg.Stats.Unsat, agg.Stats.Unknown, agg.Stats.Prefilter, validated, nViol, nKnown, complete,
+		float64(agg.Stats.SolverNs)/1e9, wall)
+	if broken {
+		fmt.Printf("CHECK-BROKEN %s\n", id)
+		return 3
+	}
+	if nViol > 0 {
+		return 1
+	}
+	return 0
+}
+
+func matchKnown(known []KnownFinding, prop string, v *interp.Violation) string {
+	for i := range known {
+		if known[i].matches(prop, v) {
+			return known[i].ID + ": " + known[i].Desc
+		}
+	}
+	return ""
+}
+
+func firstN(s []string, n int) []string {
+	if len(s) > n {
+		return s[:n]
+	}
+	return s
+}
+
+func describeObs(obs map[string]string) string {
+	var ks []string
+	for k := range obs {
+		ks = append(ks, k)
+	}
+	sort.Strings(ks)
+	var parts []string
+	for _, k := range ks {
+		b, _ := hex.DecodeString(obs[k])
+		if len(b) > 120 {
+			b = b[:120]
+		}
+		parts = append(parts, fmt.Sprintf("%s=%q", k, string(b)))
+	}
+	return strings.Join(parts, " ")
+}
+
+// ReplayMain re-runs a stored counterexample natively: exit 1 if it reproduces.
+func ReplayMain(args []string) int {
+	if len(args) < 1 {
+		fmt.Fprintln(os.Stderr, "usage: gosym replay <file>")
+		return 2
+	}
+	b, err := os.ReadFile(args[0])
+	if err != nil {
+		fmt.Fprintln(os.Stderr, err)
+		return 2
+	}
+	var r struct {
+		Entry  string            `json:"entry"`
+		Params map[string]string `json:"params"`
+		Model  map[string]uint64 `json:"model"`
+		Kind   string            `json:"kind"`
+		Msg    string            `json:"msg"`
+	}
+	if err := json.Unmarshal(b, &r); err != nil {
+		fmt.Fprintln(os.Stderr, err)
+		return 2
+	}
+	defer CleanupReplay()
+	outs, err := RunReplay([]ReplayCase{{Entry: r.Entry, Params: r.Params, Model: r.Model}}, 30*time.Second)
+	if err != nil {
+		fmt.Fprintln(os.Stderr, err)
+		return 2
+	}
+	fmt.Print(outs[0].Raw)
+	if outs[0].Outcome != "ok" && outs[0].Outcome != "assume-failed" {
+		fmt.Printf("REPRODUCED: %s\n", outs[0].Outcome)
+		return 1
+	}
+	if r.Kind == "monitor" {
+		fmt.Println("monitor violations (attempted writes) are only observable in the interpreter; re-run the check to reproduce")
+	}
+	return 0
+}
